@@ -3,6 +3,8 @@
 scratch module whose frugal runtime is /repo/lib/go."""
 import os, re, shutil, subprocess
 
+REPO = os.environ.get("VERIF_REPO", "/repo")  # see vspec.py
+
 GOENV = dict(os.environ, GOFLAGS="-mod=mod", GOPROXY="off", GOSUMDB="off", GOTOOLCHAIN="local")
 
 
@@ -12,14 +14,16 @@ class PipelineError(Exception):
 
 def build_compiler(scratch):
     exe = os.path.join(scratch, "frugal")
-    r = subprocess.run(["go", "build", "-o", exe, "."], cwd="/repo", env=GOENV, capture_output=True, text=True)
+    r = subprocess.run(["go", "build", "-o", exe, "."], cwd=REPO, env=GOENV, capture_output=True, text=True)
     if r.returncode != 0:
         raise PipelineError("compiler does not build: " + r.stderr[-1500:])
     return exe
 
 
-def run_frugal(exe, idl, gen, out, delim=None):
+def run_frugal(exe, idl, gen, out, delim=None, recursive=False):
     cmd = [exe, "--gen", gen, "--out", out]
+    if recursive:
+        cmd.append("-r")  # one compiler run (one generator instance) for the program and its includes
     if delim is not None:
         cmd += ["--delim", delim]
     cmd.append(idl)
@@ -31,11 +35,11 @@ def go_module(scratch):
     """Creates scratch/gomod with go.mod/go.sum for generated packages; returns its path."""
     mod = os.path.join(scratch, "gomod")
     os.makedirs(mod, exist_ok=True)
-    src = open("/repo/lib/go/go.mod").read()
+    src = open(REPO + "/lib/go/go.mod").read()
     reqs = src[src.index("require ("):]
     with open(os.path.join(mod, "go.mod"), "w") as f:
-        f.write("module verifgen\n\ngo 1.20\n\nrequire github.com/Workiva/frugal/lib/go v0.0.0\n\nreplace github.com/Workiva/frugal/lib/go => /repo/lib/go\n\n" + reqs)
-    shutil.copy("/repo/lib/go/go.sum", os.path.join(mod, "go.sum"))
+        f.write("module verifgen\n\ngo 1.20\n\nrequire github.com/Workiva/frugal/lib/go v0.0.0\n\nreplace github.com/Workiva/frugal/lib/go => " + REPO + "/lib/go\n\n" + reqs)
+    shutil.copy(REPO + "/lib/go/go.sum", os.path.join(mod, "go.sum"))
     return mod
 
 
